@@ -107,7 +107,7 @@ def run(unit, only=None, timeout=1500):
         info = "witness driver ran %s test fn(s); %d failing input(s)" % (ran.group(1) if ran else "?", len(ws_found))
         if stats:
             info += "; " + json.dumps(stats)
-        if re.search(r"test result: FAILED|\d+ failed;", out) and not ws_found:
+        if re.search(r"test result: FAILED|[1-9]\d* failed;", out) and not ws_found:
             info = "witness driver did not compile against the current tree or its own test failed: " + out[-400:]
         if "error: could not compile" in out or "error[E" in out:
             info = "witness driver did not compile against the current tree: " + "\n".join(l for l in out.split("\n") if l.startswith("error"))[:400]
